@@ -864,6 +864,59 @@ Example refresh_v4_on_witnesses :
   /\ refresh_v4 (map fst refresh_witness_v3) (Some [DInt 2; DInt 3]) = Some [DInt 2; DInt 3].
 Proof. repeat split; vm_compute; reflexivity. Qed.
 
+(* ---- fold sites (commit e13e43d): a fold has just re-wired the node's inputs, so the OLD output annotation describes
+   another value.  [refresh_rw] = variant 4 + "give up => unknown": the old annotation [out] is never kept. *)
+Definition refresh_rw (ins : list operand) (out : option (list dim)) : option (list dim) :=
+  if has_unknown ins then None
+  else match broadcast_shape_dims (candidates_all ins) with Some mg => Some mg | None => None end.
+(* the statement that matters at a fold site: NO hypothesis about the old output annotation *)
+Definition fold_statement (f : list operand -> option (list dim) -> option (list dim)) : Prop :=
+  forall rho ps out cr,
+    operands_ok rho ps -> bcast_list (map snd ps) = Some cr -> oshape_ok rho (f (map fst ps) out) cr.
+
+Theorem refresh_rw_fold_sound : fold_statement refresh_rw.
+Proof.
+  intros rho ps out cr Hok Hb. unfold refresh_rw.
+  destruct (has_unknown (map fst ps)) eqn:Eu; [exact I|].
+  destruct (broadcast_shape_dims (candidates_all (map fst ps))) as [mg|] eqn:Eb; [|exact I].
+  simpl. eapply broadcast_dims_sound; [exact Eb|apply candidates_all_ok; [exact Hok|]|exact Hb].
+  apply has_unknown_false. exact Eu.
+Qed.
+Lemma refresh_rw_ignores_old ins out out' : refresh_rw ins out = refresh_rw ins out'.
+Proof. reflexivity. Qed.
+
+(* HISTORY: variant 4 used at a fold site keeps a stale annotation.  Reshape[2,3] - Max(a, c: constant without declared
+   shape) - Reshape[6] folded to Max(x:[6], c): the old annotation [2,3] of the Max output survives, the value is [6] *)
+Definition fold_witness : list (operand * list nat) :=
+  [ (mkOp (Some [DInt 6]) None false, [6]); (mkOp None (Some 1) true, []) ].
+Example fold_witness_value :
+  refresh_v4 (map fst fold_witness) (Some [DInt 2; DInt 3]) = Some [DInt 2; DInt 3]
+  /\ refresh_rw (map fst fold_witness) (Some [DInt 2; DInt 3]) = None
+  /\ bcast_list (map snd fold_witness) = Some [6].
+Proof. repeat split; vm_compute; reflexivity. Qed.
+Theorem refresh_v4_fold_refuted : ~ fold_statement refresh_v4.
+Proof.
+  intro H. specialize (H (fun _ => 1) fold_witness (Some [DInt 2; DInt 3]) [6]).
+  assert (Hok : operands_ok (fun _ => 1) fold_witness).
+  { intros o c [E|[E|[]]]; injection E as <- <-; (split; [simpl; repeat constructor|]).
+    - intro E; discriminate E.
+    - intros _. constructor. }
+  specialize (H Hok eq_refl). vm_compute in H. inversion H as [|? ? ? ? Hd Hl]. inversion Hl.
+Qed.
+
+(* CastLike: the output has the shape of the data operand; the second operand only supplies the element type *)
+Definition castlike_refresh (rewired : bool) (ins : list operand) (out : option (list dim)) : option (list dim) :=
+  match ins with
+  | o :: _ => match op_shape o with Some s => Some s | None => if rewired then None else out end
+  | [] => out
+  end.
+Theorem castlike_refresh_fold_sound rho o c rest out :
+  oshape_ok rho (op_shape o) c -> oshape_ok rho (castlike_refresh true (o :: rest) out) c.
+Proof. unfold castlike_refresh. destruct (op_shape o); simpl; au. Qed.
+Theorem castlike_refresh_sound rho o c rest out :
+  oshape_ok rho (op_shape o) c -> oshape_ok rho out c -> oshape_ok rho (castlike_refresh false (o :: rest) out) c.
+Proof. unfold castlike_refresh. destruct (op_shape o); simpl; au. Qed.
+
 (* ================================================================= 6. a checker for real exports *)
 (* For operators with an exact shape rule, when ALL operand annotations are fully static, the declared output shape
    (when fully static) must be what the rule computes from the operand annotations. *)
